@@ -257,15 +257,24 @@ def check_value(names, acc, do_stack=True, case=None, sep=" and "):
             acc.count("value_not_embeddable")
             continue
         doc = f"@article{{k, title = {{T and U}}, {fld} = {o}{pad(value)}{c}, year = 1999}}"
+        if fld == "translator":
+            # a second name field, and one middleware instance per name field (two instances of each class in a stack)
+            doc = f"@article{{k, title = {{T and U}}, author = {{Zed Young and de la Wu, Xavier}}, {fld} = {o}{pad(value)}{c}, year = 1999}}"
+            per_field = lambda cls: [cls(name_fields=("author",)), cls(name_fields=("editor", "translator"))]
+            fwd = lambda: per_field(SeparateCoAuthors) + per_field(SplitNameParts)
+            bwd = lambda: per_field(MergeNameParts) + per_field(MergeCoAuthors)
+        else:
+            fwd = lambda: [SeparateCoAuthors(), SplitNameParts()]
+            bwd = lambda: [MergeNameParts(), MergeCoAuthors()]
         acc.trace()
         try:
             # (the stacks as a list, a tuple or a one-shot iterator: all are the documented Iterable)
             box = {"author": list, "editor": tuple, "translator": iter}[fld]
-            lib1 = bibtexparser.parse_string(doc, append_middleware=box([SeparateCoAuthors(), SplitNameParts()]))
+            lib1 = bibtexparser.parse_string(doc, append_middleware=box(fwd()))
             # the prepended (in-place) middlewares may rewrite lib1 while writing: keep what was parsed
             lib1_snapshot = copy.deepcopy(lib1)
-            text = bibtexparser.write_string(lib1, prepend_middleware=box([MergeNameParts(), MergeCoAuthors()]))
-            lib2 = bibtexparser.parse_string(text, append_middleware=box([SeparateCoAuthors(), SplitNameParts()]))
+            text = bibtexparser.write_string(lib1, prepend_middleware=box(bwd()))
+            lib2 = bibtexparser.parse_string(text, append_middleware=box(fwd()))
         except Exception as e:
             acc.exception(e, case, "parse_string/write_string with name middlewares", size=len(value))
             continue
@@ -282,7 +291,8 @@ def check_value(names, acc, do_stack=True, case=None, sep=" and "):
                 [f.key for f in e1.fields] == [f.key for f in e2.fields]
                 and e1.fields_dict[fld].value == e2.fields_dict[fld].value
                 and e1.fields_dict[fld].value == p1
-                and all(e1.fields_dict[k].value == e2.fields_dict[k].value for k in ("title", "year"))
+                and all(e1.fields_dict[k].value == e2.fields_dict[k].value for k in ("title", "year") + (("author",) if fld == "translator" else ()))
+                and (fld != "translator" or (isinstance(e1.fields_dict["author"].value, list) and len(e1.fields_dict["author"].value) == 2 and e1.fields_dict["author"].value[1].von == ["de", "la"]))
                 and (e1.entry_type, e1.key) == (e2.entry_type, e2.key)
             )
         acc.step(("doc", doc), "parse-write-parse", ("text", text))
